@@ -122,7 +122,7 @@ PROPS = {
         level_text=LT, level_note=LN, assumptions=[],
     ),
     "C12": dict(
-        imports="Base.Path KV.Types KV.FS KV.Handle KV.Run KV.Corr Tar.Unpack", check="C12_check", ctype="C12_case",
+        imports="Base.Path KV.Types KV.FS KV.Handle KV.Run KV.Corr Tar.Unpack Tar.Logical", check="C12_both", ctype="C12_case",
         show="let '(es, _, _) := c in unpack uinit es", n=dict(quick=500, thorough=5000), chunk=100,
         rule="random archives built with archive/tar: 1..6 entries (or 90..130 small files, more than the 81-buffer pool) in shuffled order (children before parents, explicit and implied directories), "
              "name spellings ./x /x a//b x/. a/./b a/x/../b, permission bits, sizes 0..40, 511/512/513/1024, 150KiB-1/150KiB/150KiB+1 (thorough: >4MiB); 1 in 10 with an entry resolving outside the root; "
